@@ -29,8 +29,8 @@ def make_cfg(name, batch_n, batch_b, batch_t, max_attempts, acks, sends, interva
 SENDS = [("a", 1, 3), ("a", 2, None), ("b", 1, 5), ("a", 1, 4), ("b", 2, 2), ("a", 3, -2), ("b", 1, None), ("a", 1, 6)]
 CONFIGS = [
     make_cfg("unbatched-acks1", 1, 1, 0, 2, 1, SENDS),
-    make_cfg("batch-n2-t", 2, 0, 1.0, 2, 1, SENDS),
-    make_cfg("batch-b8", 0, 8, 0, 3, 1, SENDS),
+    make_cfg("batch-n2-t", 2, 0, 1.0, 2, 1, SENDS, interval=0.4),       # (retry intervals other than the class default)
+    make_cfg("batch-b8", 0, 8, 0, 3, 1, SENDS, interval=0.1),
     make_cfg("batch-n3-b10-t-acks0", 3, 10, 2.0, 2, 0, SENDS),
     make_cfg("batch-t-only-acks-all", 0, 0, 1.0, 3, -1, SENDS),
 ]
